@@ -211,9 +211,16 @@ func (g *Gen) WrongShape() *Request {
 		}
 		kind = "batch-too-long"
 	case 2:
-		row := mp[t.Pick(len(mp))].([]any)
-		mp[0] = row[:len(row)-1]
-		kind = "ragged-merkle-proof"
+		// one row (any position, not only the first) shorter or longer than the tree depth
+		i := t.Pick(len(mp))
+		row := mp[i].([]any)
+		if t.Chance(1, 2) {
+			mp[i] = row[:len(row)-1]
+			kind = "ragged-merkle-proof-short-row"
+		} else {
+			mp[i] = append(append([]any{}, row...), "0x0")
+			kind = "ragged-merkle-proof-long-row"
+		}
 	case 3:
 		doc["merkleProofs"] = []any{}
 		kind = "empty-merkle-proofs"
